@@ -522,13 +522,21 @@ def oracle_case(case, known=(), ceiling=servers.CEILING):
                 closed = True
                 if not W(lambda: _snap(sess)["L"] == 0):
                     return where + "the listener is still open", "C17:%s:listener-open-after-close" % kind
-                if first and not (kind == "forking" and SIG_FORK in known):
+                # the known finding (a forking server's children go on serving after close()) explains exactly two things:
+                # clients of a closed forking server see no end-of-stream, and their disconnect hooks have not run yet.  What
+                # the PARENT keeps (tracked sockets, descriptors) and hooks running twice are judged all the same
+                fork_known = kind == "forking" and SIG_FORK in known
+                if first:
                     for k, cl in sess.clients.items():
-                        if cl.open and not W(cl.sees_eof):
+                        if not fork_known and cl.open and not W(cl.sees_eof):
                             sig = SIG_FORK if kind == "forking" else "C17:%s:close-leaves-clients-connected" % kind
                             return (where + "client %d did not observe end-of-stream within %.0f s of server.close()"
                                     % (k, ceiling)), sig
-                    if not W(lambda: all(h["d"] == h["c"] == 1 for h in _hooks(sess).values())):
+                    if fork_known:
+                        hooks_ok = lambda: all(h["d"] <= h["c"] <= 1 for h in _hooks(sess).values())   # noqa: E731
+                    else:
+                        hooks_ok = lambda: all(h["d"] == h["c"] == 1 for h in _hooks(sess).values())   # noqa: E731
+                    if not W(hooks_ok):
                         return (where + "disconnect hooks after close: %r" % (_hooks(sess),),
                                 "C17:%s:hook-not-run-once" % kind)
                     if not W(lambda: _snap(sess)["c"] == 0 and _snap(sess)["f"] == 0 and _snap(sess)["fds"] <= 0):
@@ -616,7 +624,9 @@ def oracle_case(case, known=(), ceiling=servers.CEILING):
                 if cl is not None and t in "gazh":
                     def hook_ok():
                         h = _hooks(sess).get(cl.peer)
-                        return h is None or h["d"] == h["c"]
+                        if h is None:
+                            return not cl.npings          # a client whose call was answered has been admitted: its hooks exist
+                        return h["d"] == h["c"]
                     if not W(hook_ok):
                         return (where + "hooks of the departed client %d: %r" % (k, _hooks(sess).get(cl.peer)),
                                 "C17:%s:hook-not-run-once" % kind)
@@ -629,12 +639,16 @@ def oracle_case(case, known=(), ceiling=servers.CEILING):
                         closed = True
             if kind == "oneshot" and sum(h["c"] for h in _hooks(sess).values()) > 1:
                 return where + "a one-shot server served more than one connection", "C17:oneshot:served-more-than-one"
-        if closed and not pending_close and not (kind == "forking" and SIG_FORK in known):
+        if closed and not pending_close:
             # whatever happened after the close (late credentials of a client that was inside the authenticator): the closed
-            # server holds nothing and nobody is connected to it
+            # server holds nothing and nobody is connected to it (the latter is what the forking finding excuses)
             if not W(lambda: _snap(sess)["c"] == 0 and _snap(sess)["f"] == 0 and _snap(sess)["fds"] <= 0):
                 return ("at the end: a closed server holds %r" % (_snap(sess),)), "C17:%s:holds-entries-after-close" % kind
+            if not W(lambda: all(h["d"] <= 1 and h["c"] <= 1 for h in _hooks(sess).values())):
+                return ("at the end: hooks %r" % (_hooks(sess),)), "C17:%s:hook-not-run-once" % kind
             for k, cl in sess.clients.items():
+                if kind == "forking" and SIG_FORK in known:
+                    break
                 if cl.open and not W(cl.sees_eof):
                     return ("at the end: client %d of a closed server never observed end-of-stream" % k,
                             "C17:%s:close-leaves-clients-connected" % kind)
